@@ -37,6 +37,10 @@ OpsCases ==
   \cup { Mk4(o, "swap", r, v) : o \in Ordering, r \in Ints, v \in Ints }
   \cup { Mk4(o, "swap", r, v) : o \in {"in", "ni"}, r \in StrLists, v \in Strs }
   \cup { Mk4(o, vt, r, I(2)) : o \in Ordering, vt \in {"age", "expiration"}, r \in Stamps }
+\* policy strings in which a backslash is followed by what would be an escape sequence in CEL source (a Windows path, a regular expression):
+\* the string is data -- the literal emitted for it must evaluate back to exactly these characters
+EscWords == { <<120, 54, 52>>, <<117, 48, 48, 101, 57>>, <<85, 48, 48, 48, 48, 48, 48, 101, 57>>, <<49, 48, 49>>, <<110>>, <<116>>, <<34>>, <<92, 120, 54, 52>> }
+LookAlikes == { p \o <<92>> \o w \o q : p \in {<<>>, <<97>>, <<92>>}, w \in EscWords, q \in {<<>>, <<97>>} }
 PolicyChars == { 97, 34, 39, 92, 10, 9, 233, 32, 128049 }        \* (the last one lies outside the basic multilingual plane)
 RECURSIVE Seqs(_,_)
 Seqs(A, n) == IF n = 0 THEN {<<>>} ELSE LET r == Seqs(A, n - 1) IN r \cup { Append(s, a) : s \in { x \in r : Len(x) = n - 1 }, a \in A }
@@ -45,7 +49,7 @@ Next == /\ case = [op |-> "none"]
         /\ CASE FAMILY \in {"ops", "opsL"} -> \E c \in OpsCases : case' = c /\ exp' = Bool(Decision(c.op, c.vt, c.r, c.v, Now))
              [] FAMILY = "presence" -> \E v \in {"present", "absent"}, res \in {"missing", "null", "value"}, form \in {"key", "tag", "path"} :
                                           case' = [op |-> "presence", value |-> v, res |-> res, form |-> form] /\ exp' = Bool(Presence(v, res))
-             [] FAMILY \in {"strings", "strings4"} -> \E s \in Seqs(PolicyChars, IF FAMILY = "strings4" THEN 4 ELSE 3) : case' = [op |-> "literal", s |-> s] /\ exp' = Str(s)
+             [] FAMILY \in {"strings", "strings4"} -> \E s \in Seqs(PolicyChars, IF FAMILY = "strings4" THEN 4 ELSE 3) \cup LookAlikes : case' = [op |-> "literal", s |-> s] /\ exp' = Str(s)
              [] FAMILY = "durations" -> \E n \in {0, 1, 59, 60, 61, 3599, 3600, 3661, 86399, 86400, 90061, 1000000} \cup { 86400 * d : d \in {0, 1, 2, 30, 365} } \cup {43200} :
                                            case' = [op |-> "duration", secs |-> n] /\ exp' = Dur(Mul(FromInt(n), Mega))
 Spec == Init /\ [][Next]_vars
